@@ -10,9 +10,11 @@ PROFILES = {
     # -- fault-free, exact model -------------------------------------------
     "C01": profile(scan=0.5, reads_after=(1, 4),
                    mix={"read": 8, "getter": 0}),
-    "C02": profile(mix={"remove": 6, "drop": 1.5, "remove_all": 0.6,
+    "C02": profile(modes=["r+", "r+", "r+", "w+"],
+                   mix={"remove": 6, "drop": 1.5, "remove_all": 0.6,
                         "update": 1, "read": 3, "getter": 1}),
-    "C03": profile(mix={"update": 6, "update_all": 2, "remove": 1,
+    "C03": profile(modes=["r+", "r+", "r+", "w+"],
+                   mix={"update": 6, "update_all": 2, "remove": 1,
                         "read": 3, "getter": 1}),
     "C06": profile(mix={"read": 3, "getter": 2, "lifecycle": 1.5,
                         "invalid": 1.5}, auto_index=[True, True, False],
@@ -34,11 +36,12 @@ PROFILES = {
                         "drop": 0.8}),
     # -- the simulated disk -----------------------------------------------------
     "C04": profile(storages=["csv"], csv_vary=True, compact=0.5,
+                   modes=["r+", "r+", "r+", "w+", "a+"], known_triggers=0.04,
                    alphabets=["plain", "hostile", "wide", "latin1",
                               "reserved"],
                    mix={"cursor": 3, "read": 2, "getter": 1,
                         "lifecycle": 1.2}, reads_after=(0, 2)),
-    "C05": profile(storages=["csv"], compact=0.5,
+    "C05": profile(storages=["csv"], compact=0.5, known_triggers=0.04,
                    alphabets=["hostile", "reserved", "wide", "hostile"],
                    numbers=["boundary", "boundary", "small"],
                    none_values=0.2,
